@@ -162,9 +162,8 @@ theorem crosstab_3d {ν ρ : Type} (zones : Nat → X κ) (layers : List (γ × 
       = some { zone := wantedZones zones cells zoneIds
                cats := selectIds (layers.map Prod.fst) catIds
                cols := (selectIds (layers.map Prod.fst) catIds).map (fun c =>
-                  match layers.find? (fun l => l.1 == c) with
-                  | some l => (wantedZones zones cells zoneIds).map (fun z => func (zoneCells zones l.2 valid cells z))
-                  | none => []) } := by
+                  optCol (layers.find? (fun l => l.1 == c)) (fun l =>
+                    (wantedZones zones cells zoneIds).map (fun z => func (zoneCells zones l.2 valid cells z)))) } := by
   rw [strip_fact, rows_fact, crosstabNumpy3d_fixed zones layers valid func cells perm zoneIds catIds hp]
   congr 2
   apply List.map_congr_left
@@ -172,7 +171,7 @@ theorem crosstab_3d {ν ρ : Type} (zones : Nat → X κ) (layers : List (γ × 
   cases layers.find? (fun l => l.1 == c) with
   | none => rfl
   | some l =>
-    simp only
+    simp only [optCol]
     apply List.map_congr_left
     intro z _
     exact hf _ _ (zoneCells_perm zones l.2 valid perm cells hp.isPerm z)
